@@ -104,7 +104,7 @@ func run(c Case) (f *failure, nontrivial bool) {
 			}
 			k := cl.NewClient(fmt.Sprintf("conn%d", len(chain)))
 			k.AttachTo(n)
-			k.Send(sim.EncConnect(sim.ConnectOpts{ClientID: "shared-id", KeepAlive: 600}))
+			k.Send(sim.EncConnect(sim.ConnectOpts{ClientID: "shared-id", KeepAlive: 65535}))
 			if f := settle(); f != nil {
 				return f, nontrivial
 			}
@@ -144,6 +144,12 @@ func run(c Case) (f *failure, nontrivial bool) {
 			if g := cl.Gossip(); len(g) > 0 {
 				deliver(st.G%len(g), cl.Nodes[st.Node%len(cl.Nodes)])
 			}
+			if f := settle(); f != nil {
+				return f, nontrivial
+			}
+		case "age":
+			// seven hours pass (the connections have a keep-alive of 18 h): records grow old
+			cl.Clock.Advance(7 * time.Hour)
 			if f := settle(); f != nil {
 				return f, nontrivial
 			}
@@ -365,6 +371,8 @@ func TestRandom(t *testing.T) {
 				c.Steps = append(c.Steps, Step{Op: "ping", J: rapid.IntRange(0, conns-1).Draw(t, "j")})
 			case x < 8:
 				c.Steps = append(c.Steps, Step{Op: rapid.SampledFrom([]string{"disconnect", "close"}).Draw(t, "end"), J: rapid.IntRange(0, conns-1).Draw(t, "j")})
+			case x < 10 && rapid.IntRange(0, 4).Draw(t, "age") == 0:
+				c.Steps = append(c.Steps, Step{Op: "age"})
 			case x < 10:
 				c.Steps = append(c.Steps, Step{Op: "gossip", G: rapid.IntRange(0, 40).Draw(t, "g"), Node: rapid.IntRange(0, c.Nodes-1).Draw(t, "to")})
 			case x < 11:
@@ -429,6 +437,25 @@ func TestStaleAnnouncement(t *testing.T) {
 				}
 			}
 			rec(nil)
+		}
+	}
+	// old records: the first session is seven (or fourteen) hours old when it is taken over on
+	// another node, and exchanges a keep-alive before it hears of that
+	if si == 0 {
+		for _, ages := range []int{1, 2} {
+			for _, pings := range []int{1, 2} {
+				c := Case{Nodes: 2, Steps: []Step{{Op: "connect", Node: 0}, {Op: "gossipall"}}}
+				for k := 0; k < ages; k++ {
+					c.Steps = append(c.Steps, Step{Op: "age"})
+				}
+				c.Steps = append(c.Steps, Step{Op: "connect", Node: 1})
+				for k := 0; k < pings; k++ {
+					c.Steps = append(c.Steps, Step{Op: "ping", J: 0})
+				}
+				c.Steps = append(c.Steps, Step{Op: "sub", J: 1}, Step{Op: "gossipall"}, Step{Op: "ping", J: 1})
+				check(t, c, "aged-record")
+				n++
+			}
 		}
 	}
 	ev.Exhaustive(fmt.Sprintf("late announcements (shard %d/%d): all placements of chains of 3..%d connections over 2 and 3 nodes; the newest session's host is handed the announcement of every earlier session (oldest first / newest first), the newest session pings after each", si, sn, maxLen))
